@@ -1,9 +1,128 @@
 import OdcGeo.Model.C20
 namespace OdcGeo.C20.Drv
-open OdcGeo OdcGeo.IO
+open OdcGeo OdcGeo.IO OdcGeo.C20
+
+def parseXF? (s : String) : Option XF :=
+  if s = "inf" then some .pinf
+  else if s = "-inf" then some .ninf
+  else if s = "nan" then some .nan
+  else (parseRat? s).map XF.fin
+
+def fmtXF : XF → String
+  | .fin q => fmtRat q
+  | .pinf => "inf"
+  | .ninf => "-inf"
+  | .nan => "nan"
+
+def parsePt? (s : String) : Option (Rat × Rat) :=
+  match (s.splitOn ";").mapM parseRat? with
+  | some [x, y] => some (x, y)
+  | _ => none
+
+def fmtPt (p : Rat × Rat) : String := s!"{fmtRat p.1};{fmtRat p.2}"
+
+def fmtTN (r : Rat × Int) : String := s!"{fmtRat r.1} {r.2}"
+
+def fmtBin (b : Bin1D) : String := s!"{fmtRat b.sz} {fmtRat b.origin} {b.direction}"
 
 def run (args : List String) : Option String :=
   match args with
+  | ["split", x] => do
+    let x ← parseXF? x
+    let r := splitFloatX x
+    pure s!"{fmtXF r.1} {fmtXF r.2}"
+  | ["mint", x, tol] => do
+    let x ← parseXF? x; let tol ← parseRat? tol
+    pure (match maybeIntX x tol with
+      | .inl k => s!"i:{k}"
+      | .inr y => s!"f:{fmtXF y}")
+  | ["almost", x, tol] => do
+    let x ← parseXF? x; let tol ← parseRat? tol
+    pure (fmtBool (isAlmostIntX x tol))
+  | ["mzero", x, tol] => do
+    let x ← parseRat? x; let tol ← parseRat? tol
+    pure (fmtRat (maybeZero x tol))
+  | ["sscale", s, tol] => do
+    let s ← parseRat? s; let tol ← parseRat? tol
+    pure (fmtRes fmtRat (snapScale s tol))
+  | ["alup", x, a] => do
+    let x ← parseInt? x; let a ← parseInt? a
+    pure (fmtInt (C17.alignUp x a))
+  | ["aldown", x, a] => do
+    let x ← parseInt? x; let a ← parseInt? a
+    pure (fmtInt (C17.alignDown x a))
+  | ["up2", x] => do
+    let x ← parseInt? x
+    pure (fmtInt (alignUpPow2 x))
+  | ["down2", x] => do
+    let x ← parseInt? x
+    pure (fmtInt (alignDownPow2 x))
+  | ["clamp", x, lo, up] => do
+    let x ← parseRat? x; let lo ← parseRat? lo; let up ← parseRat? up
+    pure (fmtRes fmtRat (clamp x lo up))
+  | ["edgepos", x0, x1, res, tol] => do
+    let x0 ← parseRat? x0; let x1 ← parseRat? x1; let res ← parseRat? res; let tol ← parseRat? tol
+    pure (fmtRes fmtTN (snapEdgePos x0 x1 res tol))
+  | ["edge", x0, x1, res, tol] => do
+    let x0 ← parseRat? x0; let x1 ← parseRat? x1; let res ← parseRat? res; let tol ← parseRat? tol
+    pure (fmtRes fmtTN (snapEdge x0 x1 res tol))
+  | ["grid", x0, x1, res, off, tol] => do
+    let x0 ← parseRat? x0; let x1 ← parseRat? x1; let res ← parseRat? res
+    let off ← parseOpt? parseRat? off; let tol ← parseRat? tol
+    pure (fmtRes fmtTN (snapGrid x0 x1 res off tol))
+  | ["dro", data, fb] => do
+    let data ← parseList? parseRat? data; let fb ← parseOpt? parseRat? fb
+    pure (fmtRes (fun r => s!"{fmtRat r.1} {fmtRat r.2}") (dataResolutionAndOffset data fb))
+  | ["axis", xx, yy, fb] => do
+    let xx ← parseList? parseRat? xx; let yy ← parseList? parseRat? yy
+    let fb ← parseOpt? parsePt? fb
+    pure (fmtRes fmtAff (affineFromAxis xx yy fb))
+  | ["st", A, tol] => do
+    let A ← parseAff? A; let tol ← parseRat? tol
+    pure (fmtBool (isAffineSt A tol))
+  | ["saff", A, ttol, stol, tol] => do
+    let A ← parseAff? A; let ttol ← parseRat? ttol; let stol ← parseRat? stol; let tol ← parseRat? tol
+    pure (fmtRes fmtAff (snapAffine A ttol stol tol))
+  | ["rws", A, n, p] => do
+    let A ← parseAff? A; let n ← parseRat? n; let p ← parseRat? p
+    let r := decomposeRws A n p
+    pure s!"{fmtAff r.R} {fmtAff r.W} {fmtAff r.S}"
+  | ["rws2", A, n, p] => do
+    let A ← parseAff? A; let n ← parseRat? n; let p ← parseRat? p
+    let r := decomposeRws2 A n p
+    pure s!"{fmtAff r.R} {fmtAff r.W} {fmtAff r.S}"
+  | ["rwsS", A, n, p] => do
+    let A ← parseAff? A; let n ← parseRat? n; let p ← parseRat? p
+    pure (fmtAff (decomposeRws A n p).S)
+  | ["resaff", A, n, p] => do
+    let A ← parseAff? A; let n ← parseRat? n; let p ← parseRat? p
+    let r := resolutionFromAffine A n p
+    pure s!"{fmtRat r.1} {fmtRat r.2}"
+  | ["fitaff", X, Y] => do
+    let X ← parseList? parsePt? X; let Y ← parseList? parsePt? Y
+    pure (fmtRes fmtAff (affineFromPts lstsqNormal X Y))
+  | ["bin", sz, origin, dir, x] => do
+    let sz ← parseRat? sz; let origin ← parseRat? origin; let dir ← parseInt? dir; let x ← parseRat? x
+    pure (fmtRes fmtInt ((Bin1D.mk? sz origin dir).map (·.bin x)))
+  | ["interval", sz, origin, dir, idx] => do
+    let sz ← parseRat? sz; let origin ← parseRat? origin; let dir ← parseInt? dir; let idx ← parseInt? idx
+    pure (fmtRes (fun r => s!"{fmtRat r.1} {fmtRat r.2}") ((Bin1D.mk? sz origin dir).map (·.interval idx)))
+  | ["fsb", idx, x0, x1, dir] => do
+    let idx ← parseInt? idx; let x0 ← parseRat? x0; let x1 ← parseRat? x1; let dir ← parseInt? dir
+    pure (fmtRes fmtBin (Bin1D.fromSampleBin idx x0 x1 dir))
+  | ["poly", k, cc, A, x, y] => do
+    let k ← parseNat? k; let cc ← parseList? parsePt? cc; let A ← parseAff? A
+    let x ← parseRat? x; let y ← parseRat? y
+    let P : Poly2d := ⟨Poly2d.reshape k cc, A⟩
+    pure (fmtPt (P.eval (x, y)))
+  | ["polywith", k, cc, A, A2, x, y] => do
+    let k ← parseNat? k; let cc ← parseList? parsePt? cc; let A ← parseAff? A; let A2 ← parseAff? A2
+    let x ← parseRat? x; let y ← parseRat? y
+    let P : Poly2d := ⟨Poly2d.reshape k cc, A⟩
+    pure (fmtPt ((P.withInputTransform A2).eval (x, y)))
+  | ["denorm", cc, Ab] => do
+    let cc ← parseList? parsePt? cc; let Ab ← parseAff? Ab
+    pure (fmtList fmtPt (Poly2d.denorm cc Ab))
   | _ => none
 
 end OdcGeo.C20.Drv
